@@ -25,6 +25,7 @@ Definition dispatch1 (name : string) (v : val) : val :=
   else if String.eqb name "session" then entry_session v
   else if String.eqb name "spec" then entry_spec v
   else if String.eqb name "spec_rows" then entry_spec_rows v
+  else if String.eqb name "alloc_table" then entry_alloc_table v
   else VL [VS "UNKNOWN_ENTRY"].
 
 (** "multi": [[name; arg]; ...] -> [result; ...] *)
